@@ -264,6 +264,11 @@ def main():
     chk.add(transfer_balance, grid_kind="cylinder3d", body_kind="cylinder", dim=3, n_elems=1, taper="uniform", grid_kw={"n": 2})
     chk.add(transfer_balance, grid_kind="sphere", body_kind="sphere", dim=3, n_elems=1, taper="uniform", grid_kw={"n": 6})
     chk.add(transfer_balance, grid_kind="plane", body_kind="plane", dim=3, n_elems=1, taper="uniform", grid_kw={"n": 3})
+    # a forcing grid of the same class built earlier in the process for another body (other element count / marker density)
+    chk.add(transfer_balance, grid_kind="nodal", body_kind="rod", dim=3, n_elems=2, taper="uniform", grid_kw={}, _earlier=[{"n_elems": 3}, {"dim": 2}])
+    chk.add(transfer_balance, grid_kind="surface", body_kind="rod", dim=3, n_elems=2, taper="uniform", grid_kw={"density": 4, "cap": True}, _earlier=[{"grid_kw": {"density": 6, "cap": False}, "n_elems": 3}])
+    chk.add(transfer_balance, grid_kind="cylinder2d", body_kind="cylinder", dim=2, n_elems=1, taper="uniform", grid_kw={"n": 5}, _earlier=[{"grid_kw": {"n": 3}}])
+    chk.add(transfer_balance, grid_kind="sphere", body_kind="sphere", dim=3, n_elems=1, taper="uniform", grid_kw={"n": 6}, _earlier=[{"grid_kw": {"n": 4}}, {"grid_kind": "plane", "body_kind": "plane", "grid_kw": {"n": 3}}])
     chk.add(flow_forces_add, n_nodes=3)
     for bk, dim in (("rod", 3), ("rod", 2), ("cylinder", 2), ("sphere", 3)):
         chk.add(fluid_plus_body_force_is_zero, body_kind=bk, dim=dim)
